@@ -136,6 +136,45 @@ def Req.ok (env : Env) (msgType : MsgType) (signers : List Addr) : Req → Bool
     requiredCovered env msgType signers req && rolesCovered env msgType signers avail roles
   | .addrs required => withoutPartiesOk env msgType required signers
 
+/-! #### for whom the signers sign ("it must either be a party/owner")
+
+The smart-contract rule asks of a smart-contract signer that it signs FOR one of the parties the
+requirement names: as that party itself, or as the holder of an applicable authorization of
+that party (characterised by `PvProofs.C10.used_signers_sound` / `direct_party_is_used`).  These
+are the signers the signature check records on the parties. -/
+
+/-- the signers recorded on the parties of an accepted signature check (none when it rejects) -/
+def usedOf (r : Except Err (List PartyDetails)) : List Addr :=
+  match r with
+  | .ok ps => getUsedSigners ps
+  | .error _ => []
+
+/-- the signer recorded for the value owner -/
+def usedVO (r : Except Err (List Addr)) : List Addr :=
+  match r with
+  | .ok u => u
+  | .error _ => []
+
+/-- the signers that sign for a party / address of the requirement -/
+def Req.used (env : Env) (msgType : MsgType) (signers : List Addr) : Req → List Addr
+  | .parties req avail roles => usedOf (validateAllRequiredPartiesSigned env msgType req avail roles signers)
+  | .addrs required => usedOf (validateAllRequiredSigned env msgType required signers)
+
+/-- the smart-contract signer rule of an endpoint whose signature requirement is `req`;
+`extra`: signers that sign for somebody outside `req` (the value owner) -/
+def Req.contractsOk (env : Env) (msgType : MsgType) (signers : List Addr) (extra : List Addr)
+    (req : Req) : Bool :=
+  Spec.smartContractOk env msgType (extra ++ req.used env msgType signers) signers
+
+/-- "every required party signs directly": all `optional = false` parties are signers and each
+required role has enough distinct available parties that are signers / all addresses are signers -/
+def Req.allSignDirectly (signers : List Addr) : Req → Bool
+  | .parties req avail roles =>
+    (req.all fun p => p.optional || signsDirectly signers p.address)
+      && roles.all fun r => decide (roles.count r ≤
+          ((distinctParties avail).filter fun k => k.2 == r && signsDirectly signers k.1).length)
+  | .addrs required => required.all fun a => signsDirectly signers a
+
 /-- "Writing or Deleting a Scope" (write; scopes without value owner).  Without rollup a write
 that changes nothing (`Scope.Equals`: same owners up to order, same other fields) asks for no
 signature. -/
@@ -195,6 +234,27 @@ def writeScopeReqVO (existing : Option Scope) (storedVO : Addr) (proposed : Scop
     else if ex.equals proposed && (proposedVO == "" || storedVO == proposedVO) then .addrs []
     else .addrs (addresses ex.owners)
 
+/-- the signer that signs for the value owner of a scope write (the stored value owner is looked
+up only when the scope exists and the message names one) -/
+def writeScopeValueOwnerUsed (env : Env) (existing : Option Scope) (storedVO proposedVO : Addr)
+    (signers : List Addr) : List Addr :=
+  usedVO (validateScopeValueOwnersSigners env "WriteScope" (lookedUpVO existing storedVO proposedVO)
+    proposedVO signers)
+
+/-- the signer that signs for the value owner of a scope that is deleted -/
+def deleteScopeValueOwnerUsed (env : Env) (storedVO : Addr) (signers : List Addr) : List Addr :=
+  usedVO (validateScopeValueOwnersSigners env "DeleteScope" storedVO "" signers)
+
+/-- the value owner after an accepted scope write: the one the message names, if it names one -/
+def valueOwnerAfterWrite (storedVO proposedVO : Addr) : Addr :=
+  if proposedVO != "" then proposedVO else storedVO
+
+/-- the scope after `AddScopeDataAccess` / `DeleteScopeDataAccess` of ONE address (`other` counts
+the data-access entries; the owners and the rollup flag stay) -/
+def scopeAfterDataAccess (msgType : MsgType) (scope : Scope) : Scope :=
+  if msgType = "AddScopeDataAccess" then { scope with other := scope.other + 1 }
+  else { scope with other := scope.other - 1 }
+
 /-- deleting a scope that has a value owner: that value owner signs -/
 def deleteScopeValueOwnerOk (env : Env) (storedVO : Addr) (signers : List Addr) : Bool :=
   storedVO == "" || valueOwnerCovered env "DeleteScope" signers storedVO
@@ -216,7 +276,7 @@ def writeSessionReq (scope : Scope) (existing : Option (List Party)) (proposed :
   if scope.rollup then
     match existing with
     | none => .parties scope.owners proposed specRoles
-    | some ex => .parties (scope.owners ++ ex) ex specRoles
+    | some ex => .parties (ex ++ scope.owners) ex specRoles
   else .addrs (addresses scope.owners)
 
 /-- "Writing a Record" -/
